@@ -22,6 +22,7 @@ from vlib import monitors, reader
 
 PROP = 'C18'
 TITLE = 'no leak; prefix independence'
+DEBUG_SHARDS = True      # two of sixteen shards run the library in its debug mode (vlib/runner.py)
 LEVEL = 'exploration'
 SHARDS = {'quick': 16, 'thorough': 16}
 FLOOR = {'quick': 1000, 'thorough': 8000}
